@@ -48,9 +48,13 @@ for d in sorted(glob.glob(os.path.join(ROOT, "seeded", "*"))):
     if os.path.exists(os.path.join(d, "patch.diff")):
         files = re.findall(r"^\+\+\+ b/(\S+)", open(os.path.join(d, "patch.diff")).read(), re.M)
         first = ", ".join(sorted(set(files)))
-    rows.append("| %s | %s | %s | demo with patch %s / without %s | %s |" % (
+    earlier = ""
+    missed_before = [h for h in (m.get("history") or []) if not h.get("caught_by")]
+    if missed_before and caught:
+        earlier = " (first **missed**, at verif %s; caught after the check was strengthened)" % missed_before[0].get("verif_head", "?")
+    rows.append("| %s | %s | %s | demo with patch %s / without %s | %s%s |" % (
         os.path.basename(d), m.get("property"), first, m.get("demo_with_patch"), m.get("demo_without_patch"),
-        "<br>".join(caught) if caught else "**missed** by " + ", ".join((m.get("checks") or {}).keys())))
+        "<br>".join(caught) if caught else "**missed** by " + ", ".join((m.get("checks") or {}).keys()), earlier))
 t2 = "| seeded change | property | file(s) changed | confirmation | caught by |\n|---|---|---|---|---|\n" + "\n".join(rows)
 s = open(p).read()
 a, b = "<!-- SEEDED-TABLE-BEGIN -->", "<!-- SEEDED-TABLE-END -->"
